@@ -136,6 +136,10 @@ def run(model: RepoModel, rep, tier: str):
                                   f"constants make the run time unbounded, and quote characters in a string constant change the expression")
     rep.analysed["evaluator call sites"] = n_sites
 
+    from .. import generic8
+    rep.rule("C08.R10", "a computed 0 stays in the abstract value: in the state-level constant folder the presence of an operand value or of the "
+                        "folded result is tested through the availability helper, never by truthiness", 1)
+    generic8.check_value_presence_tests(model, rep, "C08.R10")
     check_regex_escape(model, rep, "C08.R2")
 
     # ------------------------------------------------------------------ R3
@@ -777,6 +781,7 @@ C08_ADJUDICATED.update({
 })
 
 MUTANTS = [
+    ("folded-zero-dropped", "core/stmt_states.py", _t("        if util.is_available(value):\n            result_state_index", "        if value:\n            result_state_index"), "C08.R10"),
     ("unquote-by-strip", "basics/stmt_def_use_analysis.py", _t("            return value[1:-1]", "            return value.strip(value[0])"), "adjust_constant_string::unquoted by position"),
     ("index-zero-not-relocated", "core/global_semantics.py",
      _t("                if value != -1:\n                    stmt_status.used_symbols[each_id] = value + baseline_index", "                if value > 0:\n                    stmt_status.used_symbols[each_id] = value + baseline_index"),
